@@ -437,20 +437,46 @@ def check_updates(P, hists):
             fresh[(fv, cv)] = W.assemble().toarray()
         return fresh[(fv, cv)]
 
+    class MutableField:
+        """ONE field object whose content the caller changes in place between the steps (a time-stepping loop that keeps
+        its coefficient object): a plain callable with a version attribute, or a spline whose coefficient array is
+        overwritten"""
+        def __init__(self):
+            self.obj = P.field(0)
+            if not hasattr(self.obj, 'coeffs'):
+                outer = self
+
+                class F:
+                    v = 0
+
+                    def __call__(self_, *X):
+                        return P.field(self_.v)(*X)
+                self.obj = F()
+
+        def set(self, v):
+            if hasattr(self.obj, 'coeffs'):
+                self.obj.coeffs[...] = P.field(v).coeffs
+            else:
+                self.obj.v = v
+            return self.obj
+
     for n, hist in enumerate(hists):
         ops = [(h['op'], h['v']) for h in hist]
-        det = {'form': P.form, 'ops': ops}
+        aliased = n % 3 == 1          # every third history passes the SAME object again after changing it in place
+        det = {'form': P.form, 'ops': ops, 'same_field_object_modified_in_place': aliased}
         try:
-            W = assemble.Assembler(P.F['expr'], P.kvs, geo=P.geo, f=P.field(0), c=PARAM_C[0],
+            mf = MutableField() if aliased else None
+            field = (lambda v: mf.set(v)) if aliased else P.field
+            W = assemble.Assembler(P.F['expr'], P.kvs, geo=P.geo, f=field(0), c=PARAM_C[0],
                                    bfuns=P.F['bfuns'], updatable=['f'])
             pending = {}
             for step, h in enumerate(hist):
                 if h['op'] == 'f':
                     if (n + step) % 2 == 0:
                         pending = {}                             # superseded before it was ever passed on
-                        W.update(f=P.field(h['v']))
+                        W.update(f=field(h['v']))
                     else:
-                        pending['f'] = P.field(h['v'])      # passed to the next assemble(**upd_fields)
+                        pending['f'] = field(h['v'])        # passed to the next assemble(**upd_fields)
                 elif h['op'] == 'c':
                     W.asm.update_params(c=PARAM_C[h['v']])
                 else:
@@ -459,7 +485,8 @@ def check_updates(P, hists):
                     want = fresh_op(h['f'], h['c'])
                     sc = max(1.0, abs(want).max())
                     if abs(A - want).max() > TOL * sc:
-                        OUT.violation('update-sequence-mismatch form=%s ops=%s' % (P.form, ops[:step + 1]),
+                        OUT.violation('update-sequence-mismatch form=%s%s ops=%s' % (
+                            P.form, ' same-object-modified-in-place' if aliased else '', ops[:step + 1]),
                                       dict(det, step=step, maxdiff=float(abs(A - want).max())))
                         break
         except Exception as ex:
